@@ -755,6 +755,14 @@ def attr_value_for_copy(val):
             val.encode("utf-8")
         except UnicodeEncodeError:
             return val.encode("utf-8", "surrogateescape")
+    if isinstance(val, np.ndarray) and h5py.check_string_dtype(val.dtype):
+        # same for arrays of strings (keeping the string dtype of the array)
+        fixed = [attr_value_for_copy(v) for v in val.ravel().tolist()]
+        if any(isinstance(v, bytes) for v in fixed):
+            fixed = [v if isinstance(v, bytes) else v.encode("utf-8") for v in fixed]
+            ret = np.empty(len(fixed), dtype=val.dtype)
+            ret[:] = fixed
+            return ret.reshape(val.shape)
     return val
 
 
@@ -791,6 +799,15 @@ def h5_copy_from_to(
             for k, v in src_node.attrs.items():
                 trg_atrs[k] = attr_value_for_copy(v)
 
+    try:
+        _h5_copy_from_to(source_node, target_group, target_path, copy_attrs, shallow)
+    except Exception:
+        if target_path in target_group:  # do not leave a half-made copy behind
+            del target_group[target_path]
+        raise
+
+
+def _h5_copy_from_to(source_node, target_group, target_path, copy_attrs, shallow):
     if isinstance(source_node, H5DatasetLike):
         node = target_group.create_dataset(target_path, data=source_node[()])
         copy_attrs(source_node, node)  # copy dataset attributes
